@@ -6,6 +6,7 @@ package main
 import (
 	"os"
 	"fmt"
+	"go/token"
 	"go/types"
 	"strings"
 
@@ -77,6 +78,12 @@ func (x *Exec) call(st *State, fr *Frame, site ssa.Instruction, c *ssa.CallCommo
 				return
 			}
 		}
+	}
+	// a call through a parameter the contract declares a pure function (flag funcparam):
+	// the result is the (uninterpreted) application of that function value, nothing is written
+	if x.fc != nil && x.fc.Flags["funcparam"] != "" && len(fv.L) == 1 && x.isOwnFuncParam(fr, fv) {
+		k(st, x.fnApply(fv, c.Signature(), args))
+		return
 	}
 	// a function stored in a struct field may have a contract of its own:
 	// "func field T.f" (assumed for every function ever stored there)
@@ -268,6 +275,15 @@ func (x *Exec) modularCall(st *State, fr *Frame, site ssa.Instruction, fc *FuncC
 			env.vars[n] = args[i]
 		}
 	}
+	if fp := fc.Flags["funcparam"]; fp != "" {
+		for _, n := range strings.Fields(fp) {
+			for i, pn := range pnames {
+				if pn == n && i < len(args) {
+					x.funcParamArg(st, fr, args[i], shortName(cname), where)
+				}
+			}
+		}
+	}
 	x.bindGhost(env, fc, st)
 	for _, r := range fc.Requires {
 		g := x.evalBool(env, r.E)
@@ -319,6 +335,10 @@ func (x *Exec) modularCall(st *State, fr *Frame, site ssa.Instruction, fc *FuncC
 	x.bindResults(penv, results, res)
 	for _, e := range fc.Ensures {
 		post.assume(x.evalBool(penv, e.E))
+	}
+	for _, e := range fc.PostAssumes {
+		post.assume(x.evalBool(penv, e.E))
+		x.E.noteAssumption(fmt.Sprintf("ASSUMED (unchecked) about the result of %s: %s: %s", shortName(cname), e.Label, e.Src))
 	}
 	post.callLog = append(post.callLog, shortName(cname))
 	k(post, res)
@@ -458,6 +478,32 @@ func (x *Exec) applyModifies(post, pre *State, fr *Frame, env *Env, m *SExpr, wh
 		if m.X.K == "ident" && m.X.Name == "abs" && len(m.Args) == 1 {
 			ov := x.eval(env, m.Args[0])
 			x.modifyAbs(post, fr, ov, where, 0)
+			return
+		}
+		// spare(s): the unused capacity [off+len, off+cap) behind slice s (what an in-place append writes)
+		if m.X.K == "ident" && m.X.Name == "spare" && len(m.Args) == 1 {
+			sv := x.asSlice(x.eval(env, m.Args[0]))
+			sl, ok := sv.T.Underlying().(*types.Slice)
+			if !ok {
+				x.abort(post, "modifies spare(x) on non-slice")
+				return
+			}
+			lo := Add(sv.L[1], sv.L[2])
+			hi := Add(sv.L[1], sv.L[3])
+			tail := Val{T: sv.T, L: []*Term{sv.L[0], lo, Sub(sv.L[3], sv.L[2]), Sub(sv.L[3], sv.L[2])}}
+			x.frameCheckRange(post, fr, typeKey(sl.Elem()), tail, where)
+			for i, l := range x.tc.leaves(sl.Elem()) {
+				key := hkey("M", typeKey(sl.Elem()), i)
+				arr := x.heapArr(post, key, x.memSort(l))
+				oldInner := Select(arr, sv.L[0])
+				na := x.E.fresh("mod", oldInner.S)
+				post.heap[key] = Store(arr, sv.L[0], na)
+				if !x.tc.bv {
+					kk := x.E.fresh("k", IntS)
+					post.assume(Forall([]*Term{kk}, Implies(Or(Lt(kk, lo), Ge(kk, hi)), Eq(Select(na, kk), Select(oldInner, kk)))))
+				}
+				x.effHeap(key, sv.L[0])
+			}
 			return
 		}
 		// deref(p): the variable the pointer p points to
@@ -617,6 +663,10 @@ func (x *Exec) invoke(st *State, fr *Frame, site ssa.Instruction, c *ssa.CallCom
 		all0 := append([]Val{recv}, args...)
 		x.atCallAsserts(st, fr, callee, pn, all0, where)
 		k = x.withGhostSets(fr, callee, pn, all0, isig.Results(), k)
+	}
+	// a method call through a nil interface value panics
+	if len(recv.L) == 2 {
+		x.checkNil(st, recv, where)
 	}
 	// devirtualisation: the dynamic type is known (the interface was made from a
 	// concrete value in this function or an inlined caller)
@@ -1011,6 +1061,15 @@ func (x *Exec) frameCheckElemCond(st *State, top *Frame, elemKey string, ref, lo
 		if m.K == "ident" && m.Name == "everything" {
 			return
 		}
+		if m.K == "call" && m.X.K == "ident" && m.X.Name == "spare" && len(m.Args) == 1 {
+			sv := x.asSlice(x.eval(env, m.Args[0]))
+			sl, ok := sv.T.Underlying().(*types.Slice)
+			if !ok || typeKey(sl.Elem()) != elemKey {
+				continue
+			}
+			alts = append(alts, And(Eq(ref, sv.L[0]), Le(Add(sv.L[1], sv.L[2]), lo), Lt(hi, Add(sv.L[1], sv.L[3]))))
+			continue
+		}
 		if m.K != "star" {
 			continue
 		}
@@ -1082,4 +1141,209 @@ func singleClosureOf(v ssa.Value) *ssa.Function {
 		}
 	}
 	return fn
+}
+
+// ---------------------------------------------------------------- function-valued parameters
+
+// isOwnFuncParam: fv is (a copy of) a parameter of the function under verification that its contract
+// declares a pure function value ("flag funcparam NAME...").
+func (x *Exec) isOwnFuncParam(fr *Frame, fv Val) bool {
+	if x.fc == nil || len(fv.L) != 1 {
+		return false
+	}
+	top := fr
+	for top.parent != nil {
+		top = top.parent
+	}
+	for _, n := range strings.Fields(x.fc.Flags["funcparam"]) {
+		if pv, ok := top.params[n]; ok && len(pv.L) == 1 && pv.L[0].String() == fv.L[0].String() {
+			return true
+		}
+	}
+	return false
+}
+
+// fnApply: the application of a pure function value: an uninterpreted function of the value's identity and the arguments.
+func (x *Exec) fnApply(fv Val, sig *types.Signature, args []Val) Val {
+	if sig.Results().Len() != 1 {
+		x.evalFail("apply: a pure function value has exactly one result")
+	}
+	rt := sig.Results().At(0).Type()
+	ls := x.tc.leaves(rt)
+	if len(ls) != 1 {
+		x.evalFail("apply: the result of a pure function value is a scalar")
+	}
+	targs := []*Term{fv.L[0]}
+	for _, a := range args {
+		targs = append(targs, a.L...)
+	}
+	return Val{T: rt, L: []*Term{App("fnapp."+sanitize(sig.String()), ls[0].S, targs...)}}
+}
+
+// funcParamArg: a function value handed to a parameter that the callee's contract declares pure must be
+// (a) such a parameter of the caller itself, or (b) a function literal under a contract flagged purefn
+// (verified: modifies nothing; a body without calls or memory access other than its immutable captured
+// variables); in case (b) the literal's postconditions define the application for every argument.
+func (x *Exec) funcParamArg(st *State, fr *Frame, arg Val, callee, where string) {
+	if x.dry {
+		return
+	}
+	if x.isOwnFuncParam(fr, arg) {
+		return
+	}
+	fn, _ := arg.Fn.(*ssa.Function)
+	var cfc *FuncContract
+	if fn != nil {
+		cfc = x.E.contractFor(fn)
+	}
+	why := ""
+	switch {
+	case fn == nil:
+		why = "the function value is not statically known"
+	case cfc == nil:
+		why = "the function literal has no contract"
+	default:
+		if _, ok := cfc.Flags["purefn"]; !ok {
+			why = "the contract of the function literal is not flagged purefn"
+		} else if !cfc.HasMod || len(cfc.Modifies) != 0 {
+			why = "a purefn contract says modifies nothing"
+		} else if len(cfc.Requires) != 0 {
+			why = "a purefn contract has no precondition"
+		} else if r := simplePureLiteral(fn); r != "" {
+			why = r
+		} else if len(arg.Bindings) != len(fn.FreeVars) {
+			why = "captured variables unknown"
+		}
+	}
+	if why != "" {
+		x.oblige(st, "pre", callee+":funcparam-pure", FalseT, "function argument is a verified pure function ("+why+")", where)
+		return
+	}
+	x.E.noteContractUse(cfc)
+	env := &Env{x: x, st: st, old: st, vars: map[string]Val{}, pkgPath: x.E.pkgOfContract(cfc), fc: cfc,
+		fr: &Frame{fn: fn, fc: cfc, freeVars: arg.Bindings}}
+	var qv []*Term
+	var fargs []Val
+	var inv []*Term
+	for _, p := range fn.Params {
+		v := x.freshVal("fa."+p.Name(), p.Type(), nil)
+		inv = append(inv, x.typeInv(v, st))
+		qv = append(qv, v.L...)
+		fargs = append(fargs, v)
+		env.vars[p.Name()] = v
+	}
+	res := x.fnApply(arg, fn.Signature, fargs)
+	x.bindResults(env, fn.Signature.Results(), res)
+	var body []*Term
+	for _, e := range cfc.Ensures {
+		body = append(body, x.evalBool(env, e.E))
+	}
+	ax := Implies(And(inv...), And(body...))
+	if len(qv) > 0 {
+		ax = Forall(qv, ax)
+	}
+	st.assume(ax)
+}
+
+// simplePureLiteral: "" when fn is a function literal whose result depends only on its parameters and on
+// captured variables that never change: no calls, no memory access besides its own locals and the captured
+// cells, which it only reads and which the enclosing function assigns exactly once (a spilled parameter).
+func simplePureLiteral(fn *ssa.Function) string {
+	own := map[ssa.Value]bool{}
+	for _, fv := range fn.FreeVars {
+		own[fv] = true
+	}
+	for _, b := range fn.Blocks {
+		for _, in := range b.Instrs {
+			if al, ok := in.(*ssa.Alloc); ok && !al.Heap {
+				own[al] = true
+			}
+		}
+	}
+	for _, b := range fn.Blocks {
+		for _, in := range b.Instrs {
+			switch v := in.(type) {
+			case *ssa.Alloc:
+				if v.Heap {
+					return "the literal allocates"
+				}
+			case *ssa.UnOp:
+				if v.Op == token.MUL && !own[v.X] {
+					return "the literal reads memory other than its locals and captured variables"
+				}
+				if v.Op == token.ARROW {
+					return "the literal receives from a channel"
+				}
+			case *ssa.Store:
+				if al, ok := v.Addr.(*ssa.Alloc); !ok || !own[al] {
+					return "the literal writes memory other than its locals"
+				}
+			case *ssa.BinOp, *ssa.If, *ssa.Jump, *ssa.Return, *ssa.Phi, *ssa.Convert, *ssa.ChangeType, *ssa.DebugRef, *ssa.RunDefers:
+				// (RunDefers without any Defer instruction - those are rejected below - runs nothing)
+			case *ssa.Call:
+				if b, ok := v.Call.Value.(*ssa.Builtin); !ok || b.Name() != "ssa:deferstack" {
+					return "the literal calls a function"
+				}
+			default:
+				return fmt.Sprintf("the literal contains a %T", in)
+			}
+		}
+	}
+	parent := fn.Parent()
+	if parent == nil {
+		if len(fn.FreeVars) == 0 {
+			return ""
+		}
+		return "captured variables without an enclosing function"
+	}
+	var site *ssa.MakeClosure
+	for _, b := range parent.Blocks {
+		for _, in := range b.Instrs {
+			if mc, ok := in.(*ssa.MakeClosure); ok && mc.Fn == fn {
+				if site != nil {
+					return "the literal is instantiated more than once"
+				}
+				site = mc
+			}
+		}
+	}
+	if site == nil && len(fn.FreeVars) > 0 {
+		return "instantiation site not found"
+	}
+	if site != nil {
+		for _, bnd := range site.Bindings {
+			al, ok := bnd.(*ssa.Alloc)
+			if !ok || al.Referrers() == nil {
+				return "a captured variable is not a plain local"
+			}
+			stores := 0
+			for _, r := range *al.Referrers() {
+				switch u := r.(type) {
+				case *ssa.Store:
+					if u.Addr != al {
+						return "the address of a captured variable escapes"
+					}
+					if _, isP := u.Val.(*ssa.Parameter); !isP {
+						return "a captured variable is assigned after entry"
+					}
+					stores++
+				case *ssa.UnOp:
+					if u.Op != token.MUL {
+						return "a captured variable is used other than by value"
+					}
+				case *ssa.MakeClosure:
+					if u.Fn != fn {
+						return "a captured variable is shared with another literal"
+					}
+				case *ssa.DebugRef:
+				default:
+					return "the address of a captured variable escapes"
+				}
+			}
+			if stores != 1 {
+				return "a captured variable is assigned more than once"
+			}
+		}
+	}
+	return ""
 }
